@@ -58,6 +58,8 @@ type Val struct {
 	CtxOf    string // this value is ctx.Done() of that context
 	SubKey   string // "sub_<Struct>_<field>" when this is the address of an embedded struct field
 	SubOwner string // the owning object's reference
+	Alloc    *ssa.Alloc // this value is the address of that local variable ...
+	AllocFr  *Frame     // ... of that frame (provenance of captured function variables)
 }
 
 type iterRec struct {
@@ -77,11 +79,13 @@ type Obl struct {
 	Reach  string
 	Pos    token.Pos
 	Desc   string
+	CutAt  int  // >0: lines of e.out before this index are filtered (context barrier of a cut loop)
 	Cover  bool // reachability cover: expect SAT
 	Func   string
 }
 
 type Enc struct {
+	curFr       *Frame
 	lenFactSeen map[string]bool
 	w   *World
 	cs  *Contracts
@@ -473,9 +477,9 @@ func (e *Enc) closureFacts(c *Comp, sym, alloc string) []string {
 	vs := valueSortOf(c)
 	switch vs {
 	case "Ref":
-		return []string{fmt.Sprintf("(forall (%s) (! (select %s %s) :pattern (%s)))", strings.Join(idx, " "), alloc, cell, cell)}
+		return []string{fmt.Sprintf("(forall (%s) (! (isalloc %s %s) :pattern (%s)))", strings.Join(idx, " "), alloc, cell, cell)}
 	case "Slice":
-		return []string{fmt.Sprintf("(forall (%s) (! (and (select %s (s_arr %s)) (>= (s_len %s) 0) (>= (s_off %s) 0) (>= (s_cap %s) (s_len %s))) :pattern (%s)))",
+		return []string{fmt.Sprintf("(forall (%s) (! (and (isalloc %s (s_arr %s)) (>= (s_len %s) 0) (>= (s_off %s) 0) (>= (s_cap %s) (s_len %s))) :pattern (%s)))",
 			strings.Join(idx, " "), alloc, cell, cell, cell, cell, cell, cell)}
 	}
 	return nil
@@ -491,9 +495,9 @@ func (e *Enc) specLoadFact(term, sort string, st *St) {
 	a := e.get(st, e.allocComp())
 	switch sort {
 	case "Ref":
-		e.assume(sel(a, term))
+		e.assume(isAlloc(a, term))
 	case "Slice":
-		e.assume(fmt.Sprintf("(and (select %s (s_arr %s)) (>= (s_len %s) 0) (>= (s_off %s) 0) (>= (s_cap %s) (s_len %s)) (=> (= (s_arr %s) nil) (= (s_cap %s) 0)))", a, term, term, term, term, term, term, term))
+		e.assume(fmt.Sprintf("(and (isalloc %s (s_arr %s)) (>= (s_len %s) 0) (>= (s_off %s) 0) (>= (s_cap %s) (s_len %s)) (=> (= (s_arr %s) nil) (= (s_cap %s) 0)))", a, term, term, term, term, term, term, term))
 	}
 }
 
@@ -616,6 +620,13 @@ func (e *Enc) mapLenFact(mt *types.Map, m string, st *St) {
 	e.lenFactSeen[key] = true
 	wit := "map_wit_" + sanitize(ks)
 	e.hdrOnce(wit, fmt.Sprintf("(declare-fun %s ((Array %s Bool)) %s)", wit, ks, ks))
+	{
+		// keep ite-terms (also behind define-fun names) out of the pattern
+		mn := e.fresh("lenmap")
+		e.declare(mn, "Ref")
+		e.assume(eq(mn, m))
+		m = mn
+	}
 	e.assume(fmt.Sprintf("(and (>= (select %s %s) 0) (=> (> (select %s %s) 0) (select (select %s %s) (%s (select %s %s)))) (forall ((k %s)) (! (=> (select (select %s %s) k) (>= (select %s %s) 1)) :pattern ((select (select %s %s) k)))))",
 		lv, m, lv, m, dv, m, wit, dv, m, ks, dv, m, lv, m, dv, m))
 }
@@ -630,7 +641,15 @@ func (e *Enc) cellComp(t types.Type) *Comp {
 	return e.comp("Cell_"+k, "(Array Ref "+e.sortOf(t)+")", "cell", "C:"+typeStr(t))
 }
 
-func (e *Enc) allocComp() *Comp { return e.comp("alloc", "(Array Ref Bool)", "alloc", "alloc") }
+// Allocation is a counter: object o is allocated in a state iff its (fixed) allocation time
+// atime(o) is below the state's counter. "Allocation only grows" is then a scalar inequality
+// instead of a quantified axiom per havoc (those chains dominated instantiation counts).
+func (e *Enc) allocComp() *Comp {
+	e.hdrOnce("atime", "(declare-fun atime (Ref) Int)\n(declare-fun isalloc (Int Ref) Bool)\n(assert (forall ((a Int) (o Ref)) (! (= (isalloc a o) (< (atime o) a)) :pattern ((isalloc a o)))))\n(assert (< (atime nil) 0))")
+	return e.comp("alloc", "Int", "alloc", "alloc")
+}
+
+func isAlloc(a, o string) string { return "(isalloc " + a + " " + o + ")" }
 func (e *Enc) clockComp() *Comp { return e.comp("clock", "Int", "clock", "G:clock") }
 
 func (e *Enc) globalComp(g *ssa.Global) *Comp {
@@ -794,6 +813,7 @@ func (e *Enc) oblName(base string) string {
 func (e *Enc) addObl(kind, label, reach, goal string, pos token.Pos, desc string) *Obl {
 	name := e.oblName(e.topName + "#" + kind + ":" + label)
 	o := &Obl{Name: name, Kind: kind, Prefix: len(e.out), Goal: goal, Reach: reach, Pos: pos, Desc: desc, Func: e.topName}
+	o.CutAt = e.activeCut()
 	e.obls = append(e.obls, o)
 	return o
 }
@@ -802,6 +822,37 @@ func (e *Enc) addCover(label, reach string) {
 	name := e.oblName(e.topName + "#cover:" + label)
 	o := &Obl{Name: name, Kind: "cover", Prefix: len(e.out), Goal: "false", Reach: reach, Cover: true, Func: e.topName}
 	e.obls = append(e.obls, o)
+}
+
+// activeCut: the context barrier of the innermost cut loop whose body is being executed (by the
+// current frame or by a frame that expanded the current one in place).
+func (e *Enc) activeCut() int {
+	for f := e.curFr; f != nil; f = f.caller {
+		if f.curBlock == nil {
+			continue
+		}
+		best := 0
+		for _, li := range f.loops {
+			if li.cutAt > 0 && li.blocks[f.curBlock] && li.cutAt > best {
+				best = li.cutAt
+			}
+		}
+		if best > 0 {
+			return best
+		}
+	}
+	return 0
+}
+
+var versionedSym = regexp.MustCompile(`![0-9]+`)
+
+// keepBeforeCut: declarations and definitions always; assertions only if they speak about the
+// entry state and parameters alone (no versioned or fresh symbol).
+func keepBeforeCut(l string) bool {
+	if !strings.HasPrefix(l, "(assert ") {
+		return true
+	}
+	return !versionedSym.MatchString(l)
 }
 
 // query builds the SMT-LIB text for an obligation.
@@ -841,8 +892,11 @@ func (e *Enc) query(o *Obl, withModel bool) string {
 		b.WriteString(h)
 		b.WriteString("\n")
 	}
-	for _, l := range e.out[:o.Prefix] {
+	for li, l := range e.out[:o.Prefix] {
 		if o.Cover && (strings.Contains(l, "(forall ") || strings.Contains(l, "(exists ")) {
+			continue
+		}
+		if o.CutAt > 0 && li < o.CutAt && !keepBeforeCut(l) {
 			continue
 		}
 		b.WriteString(l)
